@@ -7,7 +7,7 @@
 // backend.
 //
 // Stream (b) "server": documents written by the harness's own RFC 4791 writer
-// (rfcdoc.go) with seeded lexical variation, the known-finding documents, and a
+// (rfcdoc.go) with seeded lexical variation, attribute look-alike documents, and a
 // malformed stream, each sent as a REPORT to the real caldav.Handler with a
 // recording backend.
 //
@@ -164,8 +164,8 @@ func main() {
 			serverDoc(path, u, false)
 		}
 		if n%10 == 0 {
-			// the known finding: a declaration or foreign attribute spelled like
-			// an attribute of the grammar
+			// a declaration or foreign attribute spelled like an attribute of
+			// the grammar (repaired defect eba20a7)
 			for _, doc := range shadowDocs(u, rng) {
 				var pairs [][2]string
 				for _, p := range u.paths {
